@@ -129,6 +129,8 @@ class Run:
         self.known = load_known_findings(pid)
         self.exhaustive = None
         self._cur_spec = None
+        self._viol_per_key = {}
+        self._auto_samples = []
 
     # ----- budgets
     def quick(self):
@@ -160,7 +162,9 @@ class Run:
         if key in self.known:
             self.known_hits[key] += 1
             return
-        if len(self.violations) >= 40:
+        # at most 6 written-out witnesses per mechanism (a defect that fires on every call must not hide a second one)
+        self._viol_per_key[key] = self._viol_per_key.get(key, 0) + 1
+        if self._viol_per_key[key] > 6 or len(self.violations) >= 90:
             self.counters["violations_not_recorded"] += 1
             return
         self.violations.append({"key": key, "what": what, "spec": spec})
@@ -169,6 +173,8 @@ class Run:
     def execute(self, mod, spec, trivial=False):
         self._cur_spec = spec
         self.evaluations += 1
+        if len(self._auto_samples) < 3 and not trivial:
+            self._auto_samples.append(json.loads(canon(spec)))
         if not trivial:
             self.case_digests.add(digest(spec))
         try:
@@ -188,7 +194,7 @@ class Run:
             "counters": dict(self.counters), "classes": sorted(self.classes), "case_digests": sorted(self.case_digests),
             "evaluations": self.evaluations, "samples": self.samples, "violations": self.violations,
             "known_hits": dict(self.known_hits), "refusals": dict(self.refusals), "notes": self.notes,
-            "exhaustive": self.exhaustive,
+            "exhaustive": self.exhaustive, "auto_samples": self._auto_samples,
         }
 
     def merge(self, p):
@@ -199,6 +205,9 @@ class Run:
         for s in p["samples"]:
             if len(self.samples) < 8:
                 self.samples.append(s)
+        for s in p.get("auto_samples", []):
+            if len(self._auto_samples) < 3:
+                self._auto_samples.append(s)
         self.violations.extend(p["violations"])
         self.known_hits.update(p["known_hits"])
         self.refusals.update(p["refusals"])
@@ -222,7 +231,7 @@ def write_evidence(run, mod, inconclusive=None):
         "evaluations": run.evaluations,
         "distinct_nontrivial": len(run.case_digests),
         "rule": mod.RULE,
-        "samples": run.samples[:8] if run.samples else [],
+        "samples": run.samples[:8] if run.samples else [{"case_spec": x} for x in run._auto_samples],
         "distinct_coverage_classes": len(run.classes),
         "coverage_classes_sample": [json.loads(c) for c in sorted(run.classes)[:40]],
         "monitor_counters": dict(sorted(run.counters.items())),
